@@ -15,7 +15,7 @@ use std::time::Instant;
 use thiserror::Error;
 use tiny_keccak::{Hasher as _, Keccak};
 
-use crate::circuit::{calculate_rln_witness, qap::CircomReduction, Curve};
+use crate::circuit::{qap::CircomReduction, try_calculate_rln_witness, Curve};
 use crate::hashers::{hash_to_field, poseidon_hash};
 use crate::poseidon_tree::*;
 use crate::public::RLN_IDENTIFIER;
@@ -302,6 +302,11 @@ pub fn random_rln_witness(tree_height: usize) -> RLNWitnessInput {
 
 pub fn proof_values_from_witness(rln_witness: &RLNWitnessInput) -> Result<RLNProofValues> {
     message_id_range_check(&rln_witness.message_id, &rln_witness.user_message_limit)?;
+    if rln_witness.path_elements.len() != rln_witness.identity_path_index.len() {
+        return Err(Report::msg(
+            "path_elements and identity_path_index have different lengths",
+        ));
+    }
 
     // y share
     let a_0 = rln_witness.identity_secret;
@@ -662,7 +667,8 @@ pub fn generate_proof(
     // If in debug mode, we measure and later print time take to compute witness
     #[cfg(test)]
     let now = Instant::now();
-    let full_assignment = calculate_rln_witness(inputs, graph_data);
+    let full_assignment =
+        try_calculate_rln_witness(inputs, graph_data).map_err(ProofError::WitnessError)?;
 
     #[cfg(test)]
     println!("witness generation took: {:.2?}", now.elapsed());
